@@ -1051,7 +1051,9 @@ def check_C15(tier, seed):
         k = rng.choice([2, 3, 5, 8])
         pre = rng.choice(['', '"g"', '"p"', '"x-"'])
         calls = ' '.join('(prin1-to-string (gensym %s))' % (pre if rng.random() < 0.8 else '') for _ in range(k))
-        wrap = rng.choice(['(list %s)', '(let ((gensym-counter %d)) (list %%s))' % rng.choice([0, 5, 100]), '(progn (setq gensym-counter %d) (list %%s))' % rng.choice([0, 7])])
+        wrap = rng.choice(['(list %s)', '(let ((gensym-counter %d)) (list %%s))' % rng.choice([0, 5, 100]), '(progn (setq gensym-counter %d) (list %%s))' % rng.choice([0, 7]),
+                           '(progn (setq gensym-counter %d) (let ((gensym-counter %d)) (list %%s)))' % (rng.choice([0, 3]), rng.choice([10, 50])),
+                           '(progn (gensym) (let ((gensym-counter %d)) (list %%s)))' % rng.choice([10, 50])])
         items.append((wrap % calls, {'exp': None, 'tag': 'gensym', 'k': k}))
         add('(let ((a (gensym)) (b (gensym))) (list (eq a b) (eq a a) (symbolp a)))', '(nil t t)', 'gensym-eq')
     rows = run_exprs(res, items, per_case=25)
